@@ -513,11 +513,12 @@ func rulesC04(w *World, r *Report) {
 func stripHex(s string) string { return s }
 
 // ruleRefBinding (C04.R5): identity of referenced containers.
-//  (a) ConvertSliceValueType unpacks a pointer element only when the
-//      destination element kind is not a pointer (otherwise SetValue re-packs a
-//      COPY and the element loses its identity);
-//  (b) SetSlice queues a reference on a holder only while the list is still
-//      being read; both list readers mark the holder completed before returning it.
+//
+//	(a) ConvertSliceValueType unpacks a pointer element only when the
+//	    destination element kind is not a pointer (otherwise SetValue re-packs a
+//	    COPY and the element loses its identity);
+//	(b) SetSlice queues a reference on a holder only while the list is still
+//	    being read; both list readers mark the holder completed before returning it.
 func (w *World) ruleRefBinding(r *Report, rule string) {
 	cs := w.fn("ConvertSliceValueType")
 	if cs == nil {
@@ -656,7 +657,6 @@ func (w *World) ruleRefKeyPins(r *Report, rule string) {
 	}
 
 }
-
 
 // ---- C05 ----
 
